@@ -182,6 +182,9 @@ func Append(err error, errs ...error) *Error {
 					e.next = next
 				}
 				e = next
+				for e.next != nil {
+					e = e.next
+				}
 			}
 		}
 		return root
